@@ -47,6 +47,14 @@ func c03Full(archs []wsp.Arch) func(AState) []AOp {
 	bset = dedupAges(bset, 0, 1<<40)
 	return func(st AState) []AOp {
 		var ops []AOp
+		// ages whose difference does not fit 31 bits (a timestamp near the epoch seen from a clock after 2038)
+		huge := []int64{1<<31 - 1, 1 << 31, 1<<31 + 13, st.Now - 1, st.Now - 86400}
+		for _, age := range huge {
+			if age > all[len(all)-1] {
+				ops = append(ops, AOp{Kind: "W1", Arch: -1, Ages: []int64{age}, Vals: []float64{4}})
+				ops = append(ops, AOp{Kind: "WB", Arch: -1, Ages: []int64{age, 0}, Vals: []float64{7, 1}})
+			}
+		}
 		for _, age := range all {
 			ops = append(ops, AOp{Kind: "W1", Arch: -1, Ages: []int64{age}, Vals: []float64{4}})
 			ops = append(ops, AOp{Kind: "W1G", Arch: -1, Ages: []int64{age}, Vals: []float64{-2}})
